@@ -14,6 +14,7 @@ from .loader import AnalysisError, Repo
 from .report import Report
 
 P = "histogrammar/primitives/"
+PL = "histogrammar/plot/matplotlib.py"
 # (property, kind, relpath, old, new, note)
 VARIANTS = [
     # ---------------- C01
@@ -29,6 +30,8 @@ VARIANTS = [
     ("C01", "neutral", P + "deviate.py", "out.mean = (self.entries * self.mean + other.entries * other.mean) / (self.entries + other.entries)", "out.mean = (other.entries * other.mean + self.entries * self.mean) / out.entries", "mean merge rewritten with out.entries"),
     ("C01", "neutral", P + "sum.py", "out.sum = self.sum + other.sum", "out.sum = other.sum + self.sum", "reordered summands"),
     ("C01", "neutral", "histogrammar/util.py", "    if math.isnan(y) or x < y:\n        return x\n    return y\n\n\ndef maxplus", "    if math.isnan(y) or x <= y:\n        return x\n    return y\n\n\ndef maxplus", "minplus <= instead of < (same value)"),
+    ("C01", "mutant", P + "collection.py", "out = Label(**{k: self(k) + other(k) for k in self.keys})", "out = Label(**{k: x + y for k, x, y in zip(self.keys, self.values, other.values)})", "Label + pairs children by position"),
+    ("C01", "mutant", P + "minmax.py", "        self.entries = both.entries\n        self.max = both.max\n        return self", "        return both", "Maximize += hands back a new object"),
     # ---------------- C02
     ("C02", "mutant", P + "bin.py", "return not math.isnan(x) and x >= self.high", "return not math.isnan(x) and x > self.high", "overflow edge"),
     ("C02", "mutant", P + "centrallybin.py", "                if x < (thisCenter + nextCenter) / 2.0:", "                if x <= (thisCenter + nextCenter) / 2.0:", "midpoint tie goes down"),
@@ -40,6 +43,10 @@ VARIANTS = [
     ("C02", "neutral", P + "minmax.py", "if math.isnan(self.max) or q > self.max:", "if math.isnan(self.max) or q >= self.max:", "equal value replaces max"),
     ("C02", "neutral", P + "count.py", "        if weight > 0.0:\n            t = self.transform(weight)", "        if 0.0 < weight:\n            t = self.transform(weight)", "mirrored gate"),
     ("C02", "neutral", P + "irregularlybin.py", "                        sub.fill(datum, weight)\n                        break", "                        sub.fill(datum, weight)", "break removed (intervals are disjoint)"),
+    ("C02", "mutant", P + "average.py", "                if math.isinf(self.mean) and math.isinf(q) and self.mean * q < 0.0:\n                    self.mean = float(\"nan\")  # opposite-sign infinities is bad\n                elif math.isinf(q):\n                    self.mean = q  # mean becomes infinite with sign of q",
+     "                if math.isinf(q):\n                    self.mean = q  # mean becomes infinite with sign of q\n                elif math.isinf(self.mean) and math.isinf(q) and self.mean * q < 0.0:\n                    self.mean = float(\"nan\")  # opposite-sign infinities is bad", "opposite infinities no longer cancel to NaN"),
+    ("C02", "mutant", P + "deviate.py", "                # any infinite value makes the variance NaN\n                self.varianceTimesEntries = float(\"nan\")\n", "", "variance stays finite after an infinite datum"),
+    ("C02", "neutral", P + "average.py", "                elif math.isinf(q):\n                    self.mean = q  # mean becomes infinite with sign of q\n                else:\n                    pass  # mean is already infinite", "                elif math.isinf(q):\n                    self.mean = q  # mean becomes infinite with sign of q", "empty else removed"),
     # ---------------- C03
     ("C03", "mutant", P + "bin.py", "weights[q == self.high] = 0.0", "weights[q == self.high] == 0.0", "q == high counted twice in the fast path"),
     ("C03", "mutant", P + "stack.py", "            numpy.less(q, threshold, selection)", "            numpy.less_equal(q, threshold, selection)", "vectorised threshold edge"),
@@ -50,6 +57,7 @@ VARIANTS = [
     ("C03", "mutant", P + "categorize.py", "                subweights[selection] = 0.0\n                self.bins[xval]._numpy(data, subweights, shape)", "                self.bins[xval]._numpy(data, subweights, shape)", "every category receives every row"),
     ("C03", "mutant", P + "irregularlybin.py", "        weights = weights.copy()\n        weights[selection] = 0.0", "        weights = weights.copy()\n        weights[selection] = 0.0\n        newentries = weights.sum()", "entries from the masked weights"),
     ("C03", "neutral", P + "sum.py", "        numpy.bitwise_not(selection, selection)\n        numpy.bitwise_and(selection, weights > 0.0, selection)\n        q = q[selection]", "        selection = numpy.bitwise_not(selection)\n        numpy.bitwise_and(selection, weights > 0.0, selection)\n        q = q[selection]", "fresh mask instead of in-place"),
+    ("C03", "mutant", P + "fraction.py", "        w = w * weights\n        w[numpy.isnan(w)] = 0.0\n        w[w < 0.0] = 0.0\n", "        w = numpy.array(w, dtype=numpy.float64)\n        w[numpy.isnan(w)] = 0.0\n        w[w < 0.0] = 0.0\n        w = w * weights\n", "inf * 0 weight reaches the numerator as NaN"),
     # ---------------- C04
     ("C04", "mutant", P + "bin.py", "out = Bin.ed(low, high, entries, values, underflow, overflow, nanflow)", "out = Bin.ed(high, low, entries, values, underflow, overflow, nanflow)", "low/high swapped by the reader"),
     ("C04", "mutant", P + "sum.py", '{"entries": floatToJson(self.entries), "sum": floatToJson(self.sum)}', '{"entries": floatToJson(self.entries), "sum": self.sum}', "sum not encoded"),
@@ -59,6 +67,9 @@ VARIANTS = [
     ("C04", "mutant", P + "stack.py", '["entries", "bins:type", "bins", "nanflow:type", "nanflow"],\n            ["name", "bins:name"],', '["entries", "bins:type", "bins", "nanflow:type", "nanflow"],\n            ["name"],', "optional key unknown to the reader"),
     ("C04", "mutant", "histogrammar/specialized.py", 'class CentrallyHistogramMethods(CentrallyBin, plotmpl.CentrallyHistogramMethods):\n    """Methods that are implicitly added to container combinations that look like centrally binned histograms."""\n\n    @property\n    def name(self):\n        return "CentrallyBin"', 'class CentrallyHistogramMethods(CentrallyBin, plotmpl.CentrallyHistogramMethods):\n    """Methods that are implicitly added to container combinations that look like centrally binned histograms."""\n\n    @property\n    def name(self):\n        return "CentrallyHistogram"', "specialised class changes the serialised type"),
     ("C04", "neutral", P + "sum.py", 'if isinstance(json, dict) and hasKeys(json.keys(), ["entries", "sum"], ["name"]):', 'if isinstance(json, dict) and hasKeys(json.keys(), ["sum", "entries"], ["name"]):', "key order"),
+    ("C04", "mutant", P + "minmax.py", "self.min = min(self.min, float(q.min()))", "self.min = min(self.min, q.min())", "numpy scalar stored into a serialised field"),
+    ("C04", "mutant", P + "bag.py", "v = tuple(map(floatOrNan, nv[\"v\"]))", "v = tuple(float(d) for d in nv[\"v\"])", "reader builds float NaN keys"),
+    ("C04", "neutral", P + "bag.py", "v = tuple(map(floatOrNan, nv[\"v\"]))", "v = tuple(floatOrNan(d) for d in nv[\"v\"])", "map rewritten as a generator"),
     # ---------------- C05
     ("C05", "mutant", P + "bin.py", "return min(self.num - 1, int(math.floor(self.num * (x - self.low) / (self.high - self.low))))", "return int(math.floor(self.num * (x - self.low) / (self.high - self.low)))", "clamp removed"),
     ("C05", "mutant", P + "fraction.py", "self.denominator.fill(datum, weight)", "self.denominator.fill(datum, w)", "denominator receives q*weight"),
@@ -77,6 +88,7 @@ VARIANTS = [
     ("C06", "mutant", P + "bag.py", "out.values = dict(self.values)", "out.values = self.values", "result adopts self's dict"),
     ("C06", "mutant", P + "irregularlybin.py", "[(c, v.zero()) for c, v in self.bins],\n            self.quantity,\n            None,\n            self.nanflow.zero(),", "[(c, v) for c, v in self.bins],\n            self.quantity,\n            None,\n            self.nanflow.zero(),", "zero() shares the bins"),
     ("C06", "neutral", P + "bag.py", "out.values = dict(self.values)", "out.values = self.values.copy()", "dict(x) vs x.copy()"),
+    ("C06", "mutant", PL, "                if j not in h_y.bins:\n                    h_y.bins[j] = Count()\n                h_y.bins[j].entries += bi.bins[j].entries", "                if j not in h_y.bins:\n                    h_y.bins[j] = bi.bins[j]\n                else:\n                    h_y.bins[j].entries += bi.bins[j].entries", "projection adopts and then updates the histogram's own cell"),
     # ---------------- C07
     ("C07", "mutant", P + "bin.py", "            self.overflow += other.overflow\n", "", "overflow not merged in place"),
     ("C07", "mutant", P + "sparselybin.py", "self.bins[i] = v.copy()", "self.bins[i] = v", "right-only bin adopted"),
@@ -84,6 +96,8 @@ VARIANTS = [
     ("C07", "mutant", P + "deviate.py", "        self.varianceTimesEntries = both.varianceTimesEntries\n", "", "field forgotten by the delegating +="),
     ("C07", "mutant", P + "collection.py", "            for x, y in zip(self.values, other.values):\n                x += y  # noqa: PLW2901\n            return self\n        raise ContainerException(f\"cannot add {self.name} and {other.name}\")\n\n    @inheritdoc(Container)\n    def __mul__(self, factor):\n        if math.isnan(factor) or factor <= 0.0:\n            return self.zero()\n        out = Index(", "            for x, y in zip(self.values, other.values):\n                x += y  # noqa: PLW2901\n            return other\n        raise ContainerException(f\"cannot add {self.name} and {other.name}\")\n\n    @inheritdoc(Container)\n    def __mul__(self, factor):\n        if math.isnan(factor) or factor <= 0.0:\n            return self.zero()\n        out = Index(", "returns other"),
     ("C07", "neutral", P + "count.py", "self.entries += other.entries", "self.entries = self.entries + other.entries", "x = x + y"),
+    ("C07", "mutant", P + "collection.py", "            self.entries += other.entries\n            for k in self.keys:\n                v = self(k)\n                v += other(k)\n            return self\n        raise ContainerException(f\"cannot add {self.name} and {other.name}\")\n\n    @inheritdoc(Container)\n    def __mul__(self, factor):\n        if math.isnan(factor) or factor <= 0.0:\n            return self.zero()\n        out = self.zero()\n        out.entries = factor * self.entries\n        for k, v in self.pairs.items():",
+     "            self.entries += other.entries\n            for v, w in zip(self.values, other.values):\n                v += w\n            return self\n        raise ContainerException(f\"cannot add {self.name} and {other.name}\")\n\n    @inheritdoc(Container)\n    def __mul__(self, factor):\n        if math.isnan(factor) or factor <= 0.0:\n            return self.zero()\n        out = self.zero()\n        out.entries = factor * self.entries\n        for k, v in self.pairs.items():", "Label += pairs children by position"),
     # ---------------- C08
     ("C08", "mutant", P + "bin.py", "out.overflow = self.overflow * factor", "out.overflow = self.overflow.copy()", "overflow not scaled"),
     ("C08", "mutant", P + "sum.py", "        if math.isnan(factor) or factor <= 0.0:\n            return self.zero()\n        out = self.zero()\n        out.entries = factor * self.entries\n        out.sum", "        if math.isnan(factor) or factor < 0.0:\n            return self.zero()\n        out = self.zero()\n        out.entries = factor * self.entries\n        out.sum", "factor 0"),
@@ -91,6 +105,7 @@ VARIANTS = [
     ("C08", "mutant", P + "stack.py", "out.bins = tuple((c, v * factor) for (c, v) in self.bins)", "out.bins = [(c, v * factor) for (c, v) in self.bins]", "bins becomes a list"),
     ("C08", "mutant", P + "minmax.py", "        out.min = self.min\n        return out.specialize()", "        out.min = factor * self.min\n        return out.specialize()", "min scaled"),
     ("C08", "neutral", P + "sum.py", "out.sum = factor * self.sum", "out.sum = self.sum * factor", "commuted product"),
+    ("C08", "mutant", P + "collection.py", "        out = Branch(*[x * factor for x in self.values])\n        out.entries = factor * self.entries", "        out = self.zero()\n        out.entries = factor * self.entries\n        out.values = tuple(x * factor for x in self.values)", "scaled Branch keeps stale i0..iN"),
     # ---------------- C09
     ("C09", "mutant", P + "bin.py", "            and numeq(self.high, other.high)\n", "", "high not compared"),
     ("C09", "mutant", P + "sparselybin.py", "and self.bins == other.bins", "and sorted(self.bins) == sorted(other.bins)", "keys only"),
@@ -99,6 +114,10 @@ VARIANTS = [
     ("C09", "mutant", P + "sum.py", "    def __ne__(self, other):\n        return not self == other\n\n    def __hash__(self):\n        return hash((self.quantity, self.entries, self.sum))", "    def __ne__(self, other):\n        return self is not other\n\n    def __hash__(self):\n        return hash((self.quantity, self.entries, self.sum))", "__ne__ by identity"),
     ("C09", "mutant", "histogrammar/util.py", "    if relativeTolerance > 0.0:\n        return abs(x - y) <= relativeTolerance * max(abs(x), abs(y))", "    if relativeTolerance >= 0.0:\n        return abs(x - y) <= relativeTolerance * max(abs(x), abs(y))", "tolerance branch taken at 0"),
     ("C09", "neutral", P + "sum.py", "            and numeq(self.entries, other.entries)\n            and numeq(self.sum, other.sum)", "            and numeq(self.sum, other.sum)\n            and numeq(self.entries, other.entries)", "reordered conjuncts"),
+    ("C09", "mutant", P + "stack.py", "and all(numeq(c1, c2) and v1 == v2 for (c1, v1), (c2, v2) in zip(self.bins, other.bins))", "and all(numeq(c1, c2) and v1 == v2 for (c1, v1), (c2, v2) in zip(self.bins[1:], other.bins[1:]))", "first cumulative bin not compared"),
+    ("C09", "mutant", "histogrammar/util.py", "            out = out and (self.expr == other.expr)", "            out = self.expr == other.expr", "UserFcn == forgets the name"),
+    ("C09", "mutant", P + "select.py", "            and self.quantity == other.quantity\n            and self.cut == other.cut", "            and self.cut == other.cut", "Select == ignores its quantity"),
+    ("C09", "neutral", "histogrammar/util.py", "            out = out and (self.expr == other.expr)\n\n        return out", "            return out and (self.expr == other.expr)\n\n        return out", "early return of the same conjunction"),
     # ---------------- C10
     ("C10", "mutant", P + "bin.py", "            if self.high != other.high:\n                raise ContainerException(f\"cannot add Bins because high differs ({self.high} vs {other.high})\")\n            if len(self.values) != len(other.values):\n                raise ContainerException(\n                    f\"cannot add Bins because nubmer of values differs ({len(self.values)} vs {len(other.values)})\"\n                )\n            if len(self.values) == 0:\n                raise ContainerException(\"cannot add Bins because number of values is zero\")\n\n            out", "            if len(self.values) != len(other.values):\n                raise ContainerException(\n                    f\"cannot add Bins because nubmer of values differs ({len(self.values)} vs {len(other.values)})\"\n                )\n            if len(self.values) == 0:\n                raise ContainerException(\"cannot add Bins because number of values is zero\")\n\n            out", "high guard dropped from +"),
     ("C10", "mutant", P + "collection.py", "if self.size != other.size:", "if self.size < other.size:", "one-sided size guard"),
@@ -116,6 +135,7 @@ VARIANTS = [
     ("C12", "mutant", P + "sparselybin.py", "                    newbin = self.value.copy()\n                    newbin.fill(datum, weight)", "                    newbin = self.value.copy()\n                    self.bins[b] = newbin\n                    newbin.fill(datum, weight)", "bin inserted before it is filled"),
     ("C12", "mutant", P + "sum.py", "            if not isinstance(q, numbers.Real):\n                raise TypeError(f\"function return value ({q}) must be boolean or number\")\n\n            # no possibility of exception from here on out (for rollback)\n            self.entries += weight\n            self.sum += q * weight", "            self.entries += weight\n            self.sum += q * weight", "no type validation before the update"),
     ("C12", "neutral", P + "sum.py", "            self.entries += weight\n            self.sum += q * weight", "            self.sum += q * weight\n            self.entries += weight", "reordered infallible updates"),
+    ("C12", "mutant", P + "minmax.py", "            if not isinstance(q, numbers.Real):\n                raise TypeError(f\"function return value ({q}) must be boolean or number\")\n\n            # no possibility of exception from here on out (for rollback)\n            self.entries += weight\n            if math.isnan(self.max) or q > self.max:", "            if not isinstance(q, numbers.Number):\n                raise TypeError(f\"function return value ({q}) must be boolean or number\")\n\n            # no possibility of exception from here on out (for rollback)\n            self.entries += weight\n            if math.isnan(self.max) or q > self.max:", "guard admits complex numbers"),
     # ---------------- C13
     ("C13", "mutant", P + "bin.py", "return np.linspace(self.low, self.high, num_bins + 1)", "return np.linspace(self.low, self.high, num_bins)", "one edge too few"),
     ("C13", "mutant", P + "centrallybin.py", "return np.array(self.centers[lidx : hidx + 1])", "return np.array(self.centers[lidx : hidx])", "one centre too few"),
@@ -123,6 +143,8 @@ VARIANTS = [
     ("C13", "mutant", P + "sparselybin.py", "entries = [self.bins[self.bin(x)].entries if self.bin(x) in self.bins else 0.0 for x in xvalues]", "entries = [self.bins[int(math.floor(x / self.binWidth))].entries if int(math.floor(x / self.binWidth)) in self.bins else 0.0 for x in xvalues]", "accessor re-implements the index"),
     ("C13", "mutant", P + "irregularlybin.py", "return np.array([(self.bins[self._lower_index(x)])[1].entries for x in xvalues])", "return np.array([(self.bins[self.lower_index(x)])[1].entries for x in xvalues])", "helper renamed at one call site only"),
     ("C13", "neutral", P + "bin.py", "        return (self.high - self.low) / len(self.values)", "        width = self.high - self.low\n        return width / len(self.values)", "local introduced"),
+    ("C13", "mutant", P + "centrallybin.py", "            return np.array([(self.bins[self.index(x)])[1].entries for x in xvalues])", "            centers = np.array(self.centers)\n            closest = np.abs(np.subtract.outer(np.asarray(xvalues, dtype=float), centers)).argmin(axis=1)\n            return np.array([(self.bins[i])[1].entries for i in closest])", "inline nearest-centre lookup"),
+    ("C13", "mutant", PL, "                if j not in h_y.bins:\n                    h_y.bins[j] = Count()\n                h_y.bins[j].entries += bi.bins[j].entries", "                if j not in h_y.bins:\n                    h_y.bins[j] = bi.bins[j]\n                else:\n                    h_y.bins[j].entries += bi.bins[j].entries", "projection adopts and then updates the histogram's own cell"),
     # ---------------- C14
     ("C14", "mutant", "histogrammar/dfinterface/pandas_histogrammar.py", 'idf = df[list(cols_by_type["num"]) + list(cols_by_type["str"]) + list(cols_by_type["bool"])].copy()', "idf = df", "works on the caller's frame"),
     ("C14", "mutant", "histogrammar/dfinterface/histogram_filler_base.py", "return features, self.bin_specs, self.var_dtype, self.time_axis", "return features, self.bin_specs, {}, self.time_axis", "var_dtype not exported"),
